@@ -28,7 +28,9 @@ baseline-passing tests still pass with it (`tools/eval_mutation.py`, scratch wor
 `tools/run_seeded.py`); every run is appended to `seeded/<id>/meta.json`.
 
 "first run" is the outcome of the property's own quick check as it stood when the change
-arrived; "now" is the outcome of the last full re-run. A miss was always traced to a dimension
+arrived; "now" is the outcome of the last full re-run of the quick checks ("thorough tier only":
+the quick tier cannot reach the condition by construction, the thorough tier contains a case
+that does, confirmed by hand; "not detected": see the note). A miss was always traced to a dimension
 the generator did not vary (never to an oracle that had to be loosened or re-interpreted); the
 generator was widened, the note under the table says how, and the unchanged tree was re-run to
 make sure the wider generator raises no alarm there.
@@ -56,8 +58,8 @@ def main():
         title = title.replace("|", "/")[:160]
         runs = m.get("runs", [])
         P = m["property"]
-        missed_first = bool(m.get("strengthening"))
-        now = "caught" if runs and P in runs[-1].get("caught_by", []) else "MISSED"
+        missed_first = bool(m.get("strengthening")) or (m.get("first_sight", {}).get("caught") is False)
+        now = "caught" if runs and P in runs[-1].get("caught_by", []) else ("thorough tier only" if m.get("thorough_only") else ("not detected" if m.get("not_taken_up") else "MISSED"))
         rows.append(f"| {m['id']} | {title} | {'MISSED' if missed_first else 'caught'} | {now} |")
         r = m.get("round", 0)
         pr = per_round.setdefault(r, [0, 0, 0])
